@@ -623,7 +623,7 @@ static CaseResult evaluate(int arch, int cfg, const std::vector<int>& hist) {
           if (ee != X.call_err) return fail(std::string("error-differs:asm=") + errname(ee) + ":bld=" + errname(X.call_err), std::string("assembler call returns ") + errname(ee) + ", builder call returns " + errname(X.call_err), comp);
         }
       }
-      if ((m.has_edit || m.has_section) && !pre.invalid) {
+      if ((m.has_edit || m.has_section) && !pre.invalid && !m.invalid) {   // (m.invalid: the rejected call may have left nodes behind, like the assembler leaves bytes)
         // what was accepted before must still finalize like the (edited) sequence without the rejected call
         RefOut& lin = need_lin(true);
         if (lin.err != X.fin) return fail(std::string("error-differs:asm=") + errname(lin.err) + ":bld=" + errname(X.fin), "a call was rejected; finalize() of the accepted nodes differs from assembling the edited sequence", comp);
@@ -761,10 +761,14 @@ static std::vector<int> alphabet(int arch, bool small_only, bool with_edit, bool
   return v;
 }
 
-static std::vector<int> base_program(int arch, bool rich) {
+// kind 0: short program with two sections; 1: rich program (deviation base); 2: three sections, links cached, cursor on the
+// trailing (empty) SectionNode - removing / moving that node and switching sections afterwards starts here
+static std::vector<int> base_program(int arch, int kind) {
   bool a = arch == AA64;
+  bool rich = kind == 1;
   std::vector<std::string> names;
-  if (rich) names = {a ? "mov x0,x1" : "lock inc dword[zbx]", "bind(L0)", a ? "b.ne L1" : "jz L1", a ? "tbl v1.16b,{v2,v3,v4,v5},v6.16b" : "vaddps zmm1{k1}{z},zmm2,zmm3", "section(1)", "embed_label(L0,0)",
+  if (kind == 2) names = {a ? "mov x0,x1" : "vaddps xmm1,xmm2,xmm3", "section(1)", "embed(5 bytes)", "section(2)", "section(0)", "section(2)"};
+  else if (rich) names = {a ? "mov x0,x1" : "lock inc dword[zbx]", "bind(L0)", a ? "b.ne L1" : "jz L1", a ? "tbl v1.16b,{v2,v3,v4,v5},v6.16b" : "vaddps zmm1{k1}{z},zmm2,zmm3", "section(1)", "embed_label(L0,0)",
                      "embed_label_delta(L0,L1,4)", "section(0)", "align(code,16)", "bind(L1)", a ? "b L0" : "jmp L0", "L2=new_label()", "embed_const_pool(L2,pool2)"};
   else names = {a ? "add x0,x1,x2,lsl 3" : "vblendvps xmm1,xmm2,xmm3,xmm4", "section(1)", "embed(5 bytes)", "section(0)", "bind(L0)", a ? "cbz x1,L0" : "jmp L0"};
   std::vector<int> h; for (auto& nme : names) h.push_back(find_op(arch, nme));
@@ -801,7 +805,9 @@ int main(int argc, char** argv) {
   bool th = c.thorough();
   std::string bounds;
   auto optint = [&](const char* k, int d) { return c.opt(k).empty() ? d : atoi(c.opt(k).c_str()); };
-  int d_full = optint("dfull", 3), d_small = optint("dsmall", th ? 4 : 0), d_edit = optint("dedit", th ? 4 : 3), d_cfg = optint("dcfg", 2), d_cfg_small = optint("dcfgsmall", th ? 3 : 0), dev_k = optint("devk", th ? 2 : 1);
+  // quick: every op of the full alphabet in every pair; triples only over the reduced alphabet.  thorough: full triples, reduced quadruples.
+  int d_full = optint("dfull", th ? 3 : 2), d_small = optint("dsmall", th ? 4 : 3), d_edit = optint("dedit", th ? 4 : 3), d_cfg = optint("dcfg", th ? 2 : 1),
+      d_cfg_small = optint("dcfgsmall", th ? 3 : 2), dev_k = optint("devk", th ? 2 : 1);
   long long total_cases = 0;
   std::string sizes;
   for (int arch = 0; arch < 3; arch++) {
@@ -815,10 +821,11 @@ int main(int argc, char** argv) {
     if (d_small > d_full) { Layer L; h.clear(); explore(arch, 0, h, 0, small, d_small, L); total_cases += L.cases;
       bounds += "depth " + std::to_string(d_small) + " over " + std::to_string(small.size()) + " ops; "; }
     // layer 2: node-list edits on top of prefix programs with sections, labels and forward/backward references
-    for (int rich = 0; rich < 2; rich++) {
-      Layer L; h = base_program(arch, rich == 1); size_t bl = h.size();
-      explore(arch, 0, h, bl, small, rich ? d_edit - 1 : d_edit, L); total_cases += L.cases;
-      bounds += std::string("prefix program of ") + std::to_string(bl) + " ops + all histories to depth " + std::to_string(rich ? d_edit - 1 : d_edit) + " over " + std::to_string(small.size()) + " ops; ";
+    for (int kind = 0; kind < 3; kind++) {
+      Layer L; h = base_program(arch, kind); size_t bl = h.size();
+      int d = kind == 1 ? d_edit - 1 : d_edit;
+      explore(arch, 0, h, bl, small, d, L); total_cases += L.cases;
+      bounds += std::string("prefix program of ") + std::to_string(bl) + " ops + all histories to depth " + std::to_string(d) + " over " + std::to_string(small.size()) + " ops; ";
     }
     // layer 3: emitter configurations (encoding options, validation, logger)
     for (int cfg = 1; cfg < kNumCfg; cfg++) {
@@ -828,11 +835,11 @@ int main(int argc, char** argv) {
     bounds += "configurations 1.." + std::to_string(kNumCfg - 1) + ": depth " + std::to_string(d_cfg) + " over the full alphabet" + (d_cfg_small > d_cfg ? ", depth " + std::to_string(d_cfg_small) + " over the reduced alphabet" : std::string()) + "; ";
     // layer 4: deviation-bounded: a rich base program with <= k ops deleted / replaced / preceded by an inserted op
     {
-      std::vector<int> base = base_program(arch, true);
+      std::vector<int> base = base_program(arch, 1);
       long long idx = 0;
       for (int cfg = 0; cfg < kNumCfg; cfg++) {
         int k = cfg == 0 ? dev_k : 1;
-        const std::vector<int>& al = (k >= 2 ? small : full);
+        const std::vector<int>& al = (k >= 2 || (cfg != 0 && !th) ? small : full);
         int N = int(al.size());
         auto st = xplor::explore_deviations(k, [&](xplor::Chooser& ch) -> bool {
           std::vector<int> hh;
